@@ -14,6 +14,11 @@ class ModelFailure(RuntimeError):
     pass
 
 
+class ModelAbort(BaseException):
+    """a callback that ends like KeyboardInterrupt / SystemExit: not an Exception, but raised by the callback all the same"""
+    pass
+
+
 def numeric_model(kind, cap0, v0, r0, rng):
     """returns (pfunc, dfunc): capacity in Ah drains with the current; the voltage sags"""
     st = {"cap": cap0}
@@ -74,6 +79,8 @@ def run_batt(s, battery, cutoff, pfunc, dfunc, cid, fail_at=None, ref=True, max_
     def boom(kind):
         cnt[kind] += 1
         if fail_at and fail_at[0] == kind and fail_at[1] == cnt[kind]:
+            if len(fail_at) > 2 and fail_at[2] == "abort":
+                raise ModelAbort("injected abort at %s #%d" % (kind, cnt[kind]))
             raise ModelFailure("injected failure at %s #%d" % (kind, cnt[kind]))
 
     def P():
@@ -133,7 +140,9 @@ def run_batt(s, battery, cutoff, pfunc, dfunc, cid, fail_at=None, ref=True, max_
             warnings.simplefilter("ignore")
             df = s.batt_life(battery, cutoff=cutoff, pfunc=P, dfunc=D)
         case["log"] = [[cell(x) for x in row] for row in df[["Time (s)", "Capacity (Ah)", "Voltage (V)", "Resistance (Ohm)"]].itertuples(index=False, name=None)]
-    except Exception as e:
+    except BaseException as e:
+        if isinstance(e, (KeyboardInterrupt, SystemExit)):
+            raise
         case["outcome"], case["exc"] = "exc", type(e).__name__
     finally:
         System._solve = orig_solve
